@@ -15,7 +15,364 @@ Theorem roundtrip_thm : forall c, In c (t_ctors T) -> is_dict c = false ->
                expected stack (c_name c) (c_param c) k v = Some (norm_calls cs).
 Proof.
   intros c I D stack k v Hv. pose proof (ctor_ok_in c I D stack k v Hv) as H. unfold ctor_ok in H.
-  revert H. destruct (construct T ctor_fuel stack (c_name c) k v) as [f|]; [|contradiction].
-  destruct (addto T (addto_fuel v) f) as [cs|]; [|contradiction].
-  intros H. exists f, cs. repeat split. apply H.
+  revert H. destruct (construct T ctor_fuel stack (c_name c) k v) as [f|] eqn:Ec; [|contradiction].
+  destruct (addto T (addto_fuel v) f) as [cs|] eqn:Ea; [|contradiction].
+  intros H. exists f, cs. split; [reflexivity|]. split; [exact Ea|]. apply H.
+Qed.
+
+(* ==================== induction over values ==================== *)
+Section ValInd.
+  Variable P : val -> Prop.
+  Hypothesis HI : forall z, P (VI z).
+  Hypothesis HBool : forall b, P (VBool b).
+  Hypothesis HF64 : forall b, P (VF64 b).
+  Hypothesis HF32 : forall b, P (VF32 b).
+  Hypothesis HC128 : forall r i, P (VC128 r i).
+  Hypothesis HC64 : forall r i, P (VC64 r i).
+  Hypothesis HStr : forall s, P (VStr s).
+  Hypothesis HBytes : forall n s, P (VBytes n s).
+  Hypothesis HTime : forall t, P (VTime t).
+  Hypothesis HLoc : forall l, P (VLoc l).
+  Hypothesis HOpq : forall o, P (VOpq o).
+  Hypothesis HNil : P VNil.
+  Hypothesis HPtr : forall v, P v -> P (VPtr v).
+  Hypothesis HSlice : forall a l, Forall P l -> P (VSlice a l).
+  Hypothesis HWrap : forall w v, P v -> P (VWrap w v).
+  Hypothesis HFld : forall t k i s x, P x -> P (VFld t k i s x).
+  Hypothesis HCalls : forall l, Forall (fun c => P (snd c)) l -> P (VCalls l).
+
+  Fixpoint val_ind' (v : val) : P v :=
+    match v with
+    | VI z => HI z | VBool b => HBool b | VF64 b => HF64 b | VF32 b => HF32 b
+    | VC128 r i => HC128 r i | VC64 r i => HC64 r i | VStr s => HStr s | VBytes n s => HBytes n s
+    | VTime t => HTime t | VLoc l => HLoc l | VOpq o => HOpq o | VNil => HNil
+    | VPtr u => HPtr u (val_ind' u)
+    | VSlice a l =>
+        HSlice a l ((fix go (l : list val) : Forall P l :=
+                       match l with
+                       | [] => Forall_nil P
+                       | x :: r => Forall_cons x (val_ind' x) (go r)
+                       end) l)
+    | VWrap w u => HWrap w u (val_ind' u)
+    | VFld t k i s x => HFld t k i s x (val_ind' x)
+    | VCalls l =>
+        HCalls l ((fix go (l : list call) : Forall (fun c => P (snd c)) l :=
+                     match l with
+                     | [] => Forall_nil _
+                     | c :: r => Forall_cons c (val_ind' (snd c)) (go r)
+                     end) l)
+    end.
+End ValInd.
+
+(* ==================== Field.Equals ==================== *)
+Lemma bytes_eqb_refl a : bytes_eqb a a = true.
+Proof. apply bytes_eqb_eq. reflexivity. Qed.
+Lemma bytes_eqb_sym a b : bytes_eqb a b = bytes_eqb b a.
+Proof.
+  destruct (bytes_eqb a b) eqn:E.
+  - apply bytes_eqb_eq in E. subst. symmetry. apply bytes_eqb_refl.
+  - destruct (bytes_eqb b a) eqn:E'; [|reflexivity]. apply bytes_eqb_eq in E'. subst.
+    rewrite bytes_eqb_refl in E. discriminate.
+Qed.
+Lemma beqb_sym a b : Bool.eqb a b = Bool.eqb b a.
+Proof. destruct a, b; reflexivity. Qed.
+
+Lemma f64_eq_sym a b : f64_eq a b = f64_eq b a.
+Proof. unfold f64_eq. rewrite (Z.eqb_sym a b). destruct (f64_nan a), (f64_nan b); cbn; try reflexivity.
+  destruct (b =? a); cbn; [reflexivity|]. apply andb_comm. Qed.
+Lemma f32_eq_sym a b : f32_eq a b = f32_eq b a.
+Proof. unfold f32_eq. rewrite (Z.eqb_sym a b). destruct (f32_nan a), (f32_nan b); cbn; try reflexivity.
+  destruct (b =? a); cbn; [reflexivity|]. apply andb_comm. Qed.
+Lemma f64_eq_refl a : f64_eq a a = negb (f64_nan a).
+Proof. unfold f64_eq. rewrite Z.eqb_refl. destruct (f64_nan a); reflexivity. Qed.
+Lemma f32_eq_refl a : f32_eq a a = negb (f32_nan a).
+Proof. unfold f32_eq. rewrite Z.eqb_refl. destruct (f32_nan a); reflexivity. Qed.
+
+Lemma opq_deep_sym a b : opq_deep a b = opq_deep b a.
+Proof.
+  unfold opq_deep. rewrite (Z.eqb_sym (oty a)), (Z.eqb_sym (oaddr a) (oaddr b)), (Z.eqb_sym (ocontent a)).
+  destruct (oty b =? oty a); cbn; [|reflexivity].
+  destruct (oaddr b =? oaddr a) eqn:E.
+  - apply Z.eqb_eq in E. rewrite E. destruct (oself a), (oself b); rewrite ?andb_true_r, ?andb_false_r; reflexivity.
+  - rewrite !andb_false_r. cbn. destruct (oself a), (oself b); rewrite ?andb_true_r, ?andb_false_r; reflexivity.
+Qed.
+
+Lemma deep_eq_sym : forall a other, deep_eq a other = deep_eq other a.
+Proof.
+  induction a using val_ind'; intros other; destruct other; cbn; try reflexivity.
+  - apply Z.eqb_sym.
+  - apply beqb_sym.
+  - apply f64_eq_sym.
+  - apply f32_eq_sym.
+  - rewrite (f64_eq_sym r), (f64_eq_sym i). reflexivity.
+  - rewrite (f32_eq_sym r), (f32_eq_sym i). reflexivity.
+  - apply bytes_eqb_sym.
+  - rewrite beqb_sym, bytes_eqb_sym. reflexivity.
+  - rewrite (Z.eqb_sym (tinst t)), (Z.eqb_sym (tloc t)). reflexivity.
+  - apply Z.eqb_sym.
+  - apply opq_deep_sym.
+  - apply IHa.
+  - (* slices *)
+    rewrite (beqb_sym (a =? 0)). destruct (Bool.eqb (addr =? 0) (a =? 0)) eqn:E0; cbn; [|reflexivity].
+    rewrite (Z.eqb_sym a addr).
+    assert (Hn : negb (a =? 0) = negb (addr =? 0)).
+    { apply Bool.eqb_prop in E0. rewrite E0. reflexivity. }
+    rewrite Hn. f_equal.
+    revert l0. induction H as [|x l Hx Hl IH]; intros [|y l0]; try reflexivity.
+    rewrite Hx. f_equal. apply IH.
+  - rewrite bytes_eqb_sym, IHa. reflexivity.
+  - rewrite (Z.eqb_sym t), (bytes_eqb_sym k), (Z.eqb_sym i), (bytes_eqb_sym s), IHa. reflexivity.
+Qed.
+
+Lemma deep_eq_refl : forall a, self_equal a = true -> deep_eq a a = true.
+Proof.
+  induction a using val_ind'; cbn; intros Hs; try reflexivity; try discriminate.
+  - apply Z.eqb_refl.
+  - destruct b; reflexivity.
+  - rewrite f64_eq_refl. exact Hs.
+  - rewrite f32_eq_refl. exact Hs.
+  - rewrite !f64_eq_refl. exact Hs.
+  - rewrite !f32_eq_refl. exact Hs.
+  - apply bytes_eqb_refl.
+  - rewrite bytes_eqb_refl. destruct n; reflexivity.
+  - rewrite !Z.eqb_refl. reflexivity.
+  - apply Z.eqb_refl.
+  - unfold opq_deep. rewrite !Z.eqb_refl. cbn. rewrite andb_true_r.
+    destruct (oself o); cbn in *; [apply orb_true_r|]. rewrite Hs. reflexivity.
+  - apply IHa, Hs.
+  - rewrite Z.eqb_refl. replace (Bool.eqb (a =? 0) (a =? 0)) with true by (destruct (a =? 0); reflexivity).
+    cbn. destruct (a =? 0); cbn in *; [|reflexivity].
+    induction H as [|x l Hx Hl IH]; [reflexivity|]. cbn in Hs. apply andb_true_iff in Hs as [H1 H2].
+    rewrite Hx by exact H1. cbn. apply IH, H2.
+  - rewrite bytes_eqb_refl. apply IHa, Hs.
+  - rewrite !Z.eqb_refl, !bytes_eqb_refl. cbn. apply IHa, Hs.
+Qed.
+
+(* the Equals class and the type name only depend on the type *)
+Lemma eq_class_ty f g : f_ty f = f_ty g -> eq_class T f = eq_class T g.
+Proof. unfold eq_class. intros ->. reflexivity. Qed.
+
+Lemma ifc_eq_some a b :
+  (match a with VNil | VLoc _ | VTime _ => true | _ => false end) = true ->
+  (match b with VNil | VLoc _ | VTime _ => true | _ => false end) = true ->
+  exists r, ifc_eq a b = Some r /\ ifc_eq b a = Some r.
+Proof.
+  destruct a; try discriminate; destruct b; try discriminate; intros _ _; cbn; eexists; split; try reflexivity.
+  - rewrite (Z.eqb_sym (tinst t0)), (Z.eqb_sym (tloc t0)). reflexivity.
+  - rewrite Z.eqb_sym. reflexivity.
+Qed.
+
+(* Equals on two fields that are as the constructors build them: never panics, symmetric *)
+Lemma equals_total_sym f g : fwfb f = true -> fwfb g = true ->
+  exists r, equals T f g = Some r /\ equals T g f = Some r.
+Proof.
+  intros Wf Wg. unfold equals. rewrite (Z.eqb_sym (f_ty g)), (bytes_eqb_sym (f_key g)).
+  destruct (f_ty f =? f_ty g) eqn:Et; cbn; [|exists false; split; reflexivity].
+  destruct (bytes_eqb (f_key f) (f_key g)); cbn; [|exists false; split; reflexivity].
+  apply Z.eqb_eq in Et. pose proof (eq_class_ty f g Et) as Ec.
+  unfold fwfb in Wf, Wg. rewrite <- Ec in *. rewrite <- Et in Wg.
+  destruct (eq_class T f).
+  - destruct (f_ifc f); try discriminate. destruct (f_ifc g); try discriminate.
+    rewrite bytes_eqb_sym. eexists; split; reflexivity.
+  - rewrite deep_eq_sym. eexists; split; reflexivity.
+  - destruct (rassoc (f_ty f) (t_ftypes T)) as [ft|]; [|discriminate].
+    destruct (f_ifc f), (f_ifc g); try discriminate; cbn.
+    + rewrite (Z.eqb_sym re0), (Z.eqb_sym im0). eexists; split; reflexivity.
+    + apply bytes_eqb_eq in Wf. apply bytes_eqb_eq in Wg. subst ft. discriminate Wg.
+    + apply bytes_eqb_eq in Wf. apply bytes_eqb_eq in Wg. subst ft. discriminate Wg.
+    + rewrite (Z.eqb_sym re0), (Z.eqb_sym im0). eexists; split; reflexivity.
+  - rewrite (Z.eqb_sym (f_int g)), (bytes_eqb_sym (f_str g)).
+    destruct (f_int f =? f_int g); cbn; [|exists false; split; reflexivity].
+    destruct (bytes_eqb (f_str f) (f_str g)); cbn; [|exists false; split; reflexivity].
+    apply ifc_eq_some; assumption.
+Qed.
+
+Lemma equals_refl f : fwfb f = true -> fself f = true -> equals T f f = Some true.
+Proof.
+  intros W S. unfold equals. rewrite Z.eqb_refl, bytes_eqb_refl. cbn.
+  unfold fwfb in W. unfold fself in S. destruct (eq_class T f).
+  - destruct (f_ifc f); try discriminate. rewrite bytes_eqb_refl. reflexivity.
+  - rewrite deep_eq_refl by exact S. reflexivity.
+  - destruct (rassoc (f_ty f) (t_ftypes T)); [|discriminate].
+    destruct (f_ifc f); try discriminate; cbn; rewrite !Z.eqb_refl; reflexivity.
+  - rewrite Z.eqb_refl, bytes_eqb_refl. cbn.
+    destruct (f_ifc f); try discriminate; cbn; rewrite ?Z.eqb_refl; reflexivity.
+Qed.
+
+(* ==================== Dict ==================== *)
+Definition dict_field (k : bytes) (v : val) : field :=
+  {| f_ty := 2; f_key := k; f_int := 0; f_str := []; f_ifc := VWrap ($"dictObject") v |}.
+
+Lemma dict_construct nm : nm = $"Dict" \/ nm = $"dictField" ->
+  forall stack k v, construct T ctor_fuel stack nm k v = Some (dict_field k v).
+Proof. intros [-> | ->] stack k v; reflexivity. Qed.
+
+(* the object a Dict field adds holds, in order, what each member adds; it panics exactly when
+   a member does *)
+Lemma dict_addto k a l :
+  option_map norm_calls (addto T (addto_fuel (VSlice a l)) (dict_field k (VSlice a l))) = exp_dict k (VSlice a l).
+Proof.
+  unfold addto_fuel, exp_dict. remember (S (val_depth (VSlice a l))) as n eqn:En. clear En.
+  assert (E : addto T (S n) (dict_field k (VSlice a l)) =
+              option_map (fun d => [(($"AddObject"), k, d)])
+                (option_map VCalls (oconcat (fun x => match field_of_val x with Some f => addto T n f | None => None end) l))).
+  { reflexivity. }
+  rewrite E. destruct (oconcat _ l); reflexivity.
+Qed.
+
+Lemma dict_names : forall c, In c (t_ctors T) -> is_dict c = true ->
+  (c_name c = $"Dict" \/ c_name c = $"dictField") /\ c_param c = TSlice TField.
+Proof.
+  assert (H : forallb (fun c => implb (is_dict c)
+                 ((bytes_eqb (c_name c) ($"Dict") || bytes_eqb (c_name c) ($"dictField")) &&
+                  gty_eqb (c_param c) (TSlice TField))) (t_ctors T) = true) by (vm_compute; reflexivity).
+  intros c I D. rewrite forallb_forall in H. specialize (H c I). rewrite D in H. cbn in H.
+  apply andb_true_iff in H as [Hn Hp]. split.
+  - apply orb_true_iff in Hn as [Hn|Hn]; apply bytes_eqb_eq in Hn; [left|right]; exact Hn.
+  - destruct (c_param c); try discriminate. destruct g; try discriminate. reflexivity.
+Qed.
+
+(* ==================== Equals on the Fields the constructors build ==================== *)
+Definition built (stack : bytes) (c : ctor) (k : bytes) (v : val) (f : field) : Prop :=
+  In c (t_ctors T) /\ in_typeb (c_param c) v = true /\ construct T ctor_fuel stack (c_name c) k v = Some f.
+
+Lemma built_facts stack c k v f : built stack c k v f ->
+  fwfb f = true /\ (payload_self (c_param c) v = true -> fself f = true).
+Proof.
+  intros (I & Hv & Hc). destruct (is_dict c) eqn:D.
+  - destruct (dict_names c I D) as (Hn & Hp). rewrite (dict_construct _ Hn) in Hc. injection Hc as <-.
+    split; [reflexivity|]. rewrite Hp in *. destruct v; try discriminate Hv. cbn in Hv.
+    apply andb_true_iff in Hv as [H1 _]. intros Hs. cbn in Hs. cbn. apply (slice_self _ _ _ H1 Hs).
+  - pose proof (ctor_ok_in c I D stack k v Hv) as H. unfold ctor_ok in H. rewrite Hc in H.
+    destruct (addto T (addto_fuel v) f); [|contradiction]. tauto.
+Qed.
+
+Theorem equals_total_thm stack c1 k1 v1 f c2 k2 v2 g :
+  built stack c1 k1 v1 f -> built stack c2 k2 v2 g -> equals T f g <> None.
+Proof.
+  intros B1 B2. destruct (built_facts _ _ _ _ _ B1) as [W1 _]. destruct (built_facts _ _ _ _ _ B2) as [W2 _].
+  destruct (equals_total_sym f g W1 W2) as (r & E & _). rewrite E. discriminate.
+Qed.
+
+Theorem equals_sym_thm stack c1 k1 v1 f c2 k2 v2 g :
+  built stack c1 k1 v1 f -> built stack c2 k2 v2 g -> equals T f g = equals T g f.
+Proof.
+  intros B1 B2. destruct (built_facts _ _ _ _ _ B1) as [W1 _]. destruct (built_facts _ _ _ _ _ B2) as [W2 _].
+  destruct (equals_total_sym f g W1 W2) as (r & E1 & E2). rewrite E1, E2. reflexivity.
+Qed.
+
+Theorem equals_refl_thm stack c k v f :
+  built stack c k v f -> payload_self (c_param c) v = true -> equals T f f = Some true.
+Proof.
+  intros B S. destruct (built_facts _ _ _ _ _ B) as [W Hs]. apply equals_refl; [exact W|exact (Hs S)].
+Qed.
+
+(* constructors are functions of (key, value); Fields built from the same input compare equal *)
+Theorem equal_inputs_thm stack c k v f g :
+  built stack c k v f -> built stack c k v g ->
+  f = g /\ (payload_self (c_param c) v = true -> equals T f g = Some true).
+Proof.
+  intros B1 B2. assert (E : f = g).
+  { destruct B1 as (_ & _ & E1). destruct B2 as (_ & _ & E2). rewrite E1 in E2. injection E2 as ->. reflexivity. }
+  split; [exact E|]. subst g. apply (equals_refl_thm _ _ _ _ _ B1).
+Qed.
+
+(* Binary/ByteString: equal contents compare equal whether the slice is nil or empty *)
+Lemma equals_bytes_content f g : f_ty f = f_ty g -> f_key f = f_key g -> eq_class T f = QBytes ->
+  forall n m s, f_ifc f = VBytes n s -> f_ifc g = VBytes m s -> equals T f g = Some true.
+Proof.
+  intros Et Ek Ec n m s Ef Eg. unfold equals. rewrite Et, Ek, Z.eqb_refl, bytes_eqb_refl. cbn.
+  rewrite Ec, Ef, Eg, bytes_eqb_refl. reflexivity.
+Qed.
+
+(* ==================== the original Equals (before the two fix: commits) ==================== *)
+Definition eq_classes_orig : list (name * eqclass) := [
+  (($"BinaryType"), QBytes); (($"ByteStringType"), QBytes);
+  (($"ArrayMarshalerType"), QDeep); (($"ObjectMarshalerType"), QDeep);
+  (($"ErrorType"), QDeep); (($"ReflectType"), QDeep) ].
+Definition T_orig : tables :=
+  {| t_ctors := t_ctors T; t_ftypes := t_ftypes T; t_arms := t_arms T; t_wrappers := t_wrappers T;
+     t_eq := eq_classes_orig; t_any := t_any T; t_implements := t_implements T |}.
+
+(* the full statement, about the original table *)
+Definition equals_total_orig : Prop :=
+  forall c k v f, In c (t_ctors T_orig) -> in_typeb (c_param c) v = true ->
+    construct T_orig ctor_fuel [] (c_name c) k v = Some f -> equals T_orig f f <> None.
+Definition equals_refl_orig : Prop :=
+  forall c k v f, In c (t_ctors T_orig) -> in_typeb (c_param c) v = true ->
+    payload_self (c_param c) v = true ->
+    construct T_orig ctor_fuel [] (c_name c) k v = Some f -> equals T_orig f f = Some true.
+
+(* a Stringer whose dynamic type is a slice: not comparable *)
+Definition slice_stringer : val :=
+  VOpq {| oty := 10; oaddr := 1; ocontent := 0; ocmp := false; oself := true; ostr := [x73]; oerr := [] |}.
+Definition nan64 : Z := 0x7FF8000000000000.
+
+Definition ctor_named (n : name) : ctor :=
+  match find_ctor n (t_ctors T) with Some c => c | None => {| c_name := []; c_param := TNone; c_body := BDeleg [] KNone None |} end.
+
+Lemma ctor_named_in n c : find_ctor n (t_ctors T) = Some c -> In c (t_ctors T).
+Proof.
+  induction (t_ctors T) as [|x l IH]; cbn; [discriminate|].
+  destruct (bytes_eqb n (c_name x)); [intros [= ->]; left; reflexivity|intros H; right; apply IH, H].
+Qed.
+
+Lemma equals_total_orig_refuted : ~ equals_total_orig.
+Proof.
+  intros H.
+  apply (H (ctor_named ($"Stringer")) [x6b] slice_stringer
+           {| f_ty := 25; f_key := [x6b]; f_int := 0; f_str := []; f_ifc := slice_stringer |}).
+  - apply (ctor_named_in ($"Stringer")). reflexivity.
+  - reflexivity.
+  - vm_compute. reflexivity.
+  - vm_compute. reflexivity.
+Qed.
+
+Lemma equals_total_orig_refuted_inline : ~ equals_total_orig.
+Proof.
+  intros H.
+  apply (H (ctor_named ($"Inline")) [] slice_stringer
+           {| f_ty := 28; f_key := []; f_int := 0; f_str := []; f_ifc := slice_stringer |}).
+  - apply (ctor_named_in ($"Inline")). reflexivity.
+  - reflexivity.
+  - vm_compute. reflexivity.
+  - vm_compute. reflexivity.
+Qed.
+
+Lemma equals_refl_orig_refuted : ~ equals_refl_orig.
+Proof.
+  intros H.
+  assert (E := H (ctor_named ($"Complex128")) [x6b] (VC128 nan64 0)
+           {| f_ty := 6; f_key := [x6b]; f_int := 0; f_str := []; f_ifc := VC128 nan64 0 |}
+           (ctor_named_in ($"Complex128") _ eq_refl) eq_refl eq_refl eq_refl).
+  vm_compute in E. discriminate E.
+Qed.
+
+(* ==================== Time ==================== *)
+Definition min_nano : Z := -9223372036854775808.
+Definition max_nano : Z := 9223372036854775807.
+
+Theorem time_thm stack k t :
+  match construct T ctor_fuel stack ($"Time") k (VTime t) with
+  | Some f =>
+      (* the encoder receives the same instant in the same location *)
+      addto T 2 f = Some [(($"AddTime"), k, VTime t)] /\
+      (* representable as int64 nanoseconds (boundaries included): UnixNano + Location *)
+      (min_nano <= tinst t <= max_nano ->
+         f = {| f_ty := 16; f_key := k; f_int := tinst t; f_str := []; f_ifc := VLoc (tloc t) |}) /\
+      (* otherwise the time.Time itself, unchanged *)
+      (~ (min_nano <= tinst t <= max_nano) ->
+         f = {| f_ty := 17; f_key := k; f_int := 0; f_str := []; f_ifc := VTime t |})
+  | None => False
+  end.
+Proof.
+  destruct t as [i l]. unfold min_nano, max_nano. cbn.
+  destruct (i <? -9223372036854775808) eqn:A; cbn.
+  - apply Z.ltb_lt in A. split; [reflexivity|]. split; [intros; lia|reflexivity].
+  - destruct (9223372036854775807 <? i) eqn:B; cbn.
+    + apply Z.ltb_lt in B. split; [reflexivity|]. split; [intros; lia|reflexivity].
+    + pose proof (time_in_range i A B) as R. rewrite in_numb_wrap. cbn.
+      rewrite (wrap1_id NInt64 NInt64 i R eq_refl).
+      apply Z.ltb_ge in A. apply Z.ltb_ge in B.
+      split; [reflexivity|]. split; [reflexivity|intros N; elim N; lia].
 Qed.
